@@ -274,3 +274,9 @@ Proof.
   - now apply Nat.leb_le.
   - now apply Nat.leb_le.
 Qed.
+
+Lemma close_held_b_spec ops : forall released, close_held_b released ops = true <-> close_held released ops.
+Proof.
+  induction ops as [|[lock intr] r IH]; intros released; cbn; [tauto|].
+  rewrite !andb_true_iff, IH. destruct intr, released, lock; cbn; intuition congruence.
+Qed.
